@@ -331,6 +331,16 @@ def run_connection(case):
                     oc()
                 s.close = close
             sim.on_connect = on_connect
+            cs = sim.client.shutdown
+
+            def cshutdown(how):
+                LOG.append(('clientshutdown',))
+                err = case.get('shutdown_error')
+                if err:          # conn.shutdown(SHUT_WR) failing for a reason of its own
+                    import errno as _errno
+                    raise OSError(getattr(_errno, err), 'scripted shutdown error')
+                return cs(how)   # raises ENOTCONN after a scripted peer reset (sim.FakeSock.peer_reset)
+            sim.client.shutdown = cshutdown
             cc = sim.client.close
 
             def cclose():
@@ -474,6 +484,7 @@ def coq_event(e):
     if k == 'escaped': return 'Escaped %d' % e[1]
     if k == 'accesslog': return 'AccessLog %s' % coq_ctx(e[1])
     if k == 'upclose': return 'UpstreamClose'
+    if k == 'clientshutdown': return 'ClientShutdown'
     if k == 'clientclose': return 'ClientClose'
     raise ValueError(e)
 
@@ -574,11 +585,25 @@ def first_step(rng, spec, conn_ok=True):
 
 PASS = ['pass']
 
+# plugin class names are part of the generated space: the chain order must be the CONFIGURED order, not any order derived
+# from name() — names sorting before / after 'AuthPlugin', sharing prefixes with it, differing in case only
+NAMES_BEFORE_AUTH = ['AdBlockPlugin', 'ApiMockPlugin', 'AAA', 'AUTHPLUGIN', 'Auth', 'AuthPlugi', 'AuthPLugin', 'A_first', 'Abc9', 'A0']
+NAMES_AFTER_AUTH = ['AuthPlugin2', 'AuthPluginX', 'AuthPlugin_', 'Authz', 'authplugin', 'aUTHpLUGIN', 'BlockPlugin', 'Zed', 'ZZtop', 'b', 'Gen']
+
 
 def mk_table(i, name=None, **acts):
     t = dict(id=i, name=name or ('Gen%d' % i), buc=PASS, hcr=PASS, hcd=PASS, huc=PASS, oal=PASS, oucc=PASS, dns=['none'])
     t.update(acts)
     return t
+
+
+def pick_names(rng, n):
+    """n distinct class names, mixing names that sort before and after 'AuthPlugin'"""
+    pool = NAMES_BEFORE_AUTH + NAMES_AFTER_AUTH
+    names = rng.sample(pool, n)
+    if n and not any(x in NAMES_BEFORE_AUTH for x in names) and rng.random() < 0.7:
+        names[rng.randrange(n)] = rng.choice([x for x in NAMES_BEFORE_AUTH if x not in names])
+    return names
 
 
 def rand_act(rng, kinds, lifecycle=False):
